@@ -15,7 +15,7 @@ from __future__ import annotations
 import itertools
 
 from .core import AnalysisError
-from .objmodel import ClassModel
+from .objmodel import ClassModel, new_parser_state
 from .ordabs import ModelRaise, Obj
 from .repo import Repo
 from .triviasem import RELS
@@ -55,7 +55,7 @@ def check_fail(repo: Repo, where: str, thorough: bool = False) -> tuple[int, lis
     for hist in histories:
         n += 1
         try:
-            state = cm.new("ParserState", "x" * 8, 0, Obj("Parser", rules={}))
+            state = new_parser_state(cm, "x" * 8, 0, Obj("Parser", rules={}), where)
             frames = [Obj("Rule", name="outer"), Obj("Rule", name="top")]
             for f in frames:
                 cm.call(state.rule_stack, "push", f)
